@@ -70,6 +70,10 @@ def generate(ctx):
                                 changed = True
         order = list(range(n))
         rng.shuffle(order)
+        if n and rng.random() < 0.25:
+            # the same object listed more than once (the repository's own test does that)
+            for _ in range(rng.randrange(1, 4)):
+                order.insert(rng.randrange(len(order) + 1), rng.choice(order))
         cases.append({"nodes": [[k, i, kids] for k, i, kids in nodes], "known": sorted(known), "order": order,
                       "sample_size": rng.choice([1, 2, 3, 1000]), "sched_seed": rng.randrange(2**32)})
     return cases
